@@ -227,6 +227,43 @@ func genC02(g *G) {
 		}
 		g.Emit(J{"op": op, "f": f, "values": vals, "honest": hidx}, op, "odd-typed-correct-value", "f="+S(f))
 	}
+	// correct values with more significant digits than a float64 holds, agreeing in the leading 16; the
+	// faulty value differs only below that (order must be decided by exact comparison)
+	for i := 0; i < g.N(150, 2000); i++ {
+		f := 1 + g.R.Intn(3)
+		b := 1 + g.R.Intn(f)
+		h := b + 1 + g.R.Intn(f+1)
+		base := new(big.Int).Mul(big.NewInt(int64(1000+g.R.Intn(9000))), new(big.Int).Exp(big.NewInt(10), big.NewInt(int64(17+g.R.Intn(6))), nil))
+		exp := int32(-g.R.Intn(19))
+		mk := func(delta int64) any {
+			return svJ(llo.ToDecimal(decimal.NewFromBigInt(new(big.Int).Add(base, big.NewInt(delta)), exp)))
+		}
+		type lv struct {
+			v      any
+			honest bool
+		}
+		var l []lv
+		for k := 0; k < h; k++ {
+			l = append(l, lv{mk(int64(g.R.Intn(3))), true})
+		}
+		for k := 0; k < b; k++ {
+			d := int64(1000 + g.R.Intn(200000))
+			if g.R.Intn(2) == 0 {
+				d = -d
+			}
+			l = append(l, lv{mk(d), false})
+		}
+		g.R.Shuffle(len(l), func(i, j int) { l[i], l[j] = l[j], l[i] })
+		vals := make([]any, len(l))
+		var hidx []any
+		for i, e := range l {
+			vals[i] = e.v
+			if e.honest {
+				hidx = append(hidx, i)
+			}
+		}
+		g.Emit(J{"op": "agg.median", "f": f, "values": vals, "honest": hidx}, "agg.median", "beyond-float64-precision", "f="+S(f))
+	}
 	// starvation: at most f usable values => no aggregate
 	for i := 0; i < g.N(200, 2000); i++ {
 		f := 1 + g.R.Intn(3)
